@@ -41,6 +41,7 @@ class Ctx:
         self.H: Dict[str, List[Any]] = {}
         self.gen_log: List[Any] = []
         self.added_humans: Dict[str, str] = {}  # human-driven vehicles a co-simulation client added mid-run: vehicle id -> schedule id
+        self.injected_departure: Dict[str, int] = {}
         self.injected_now: List[str] = []  # request ids a co-simulation client added before this step (no add event exists for them)
         self.states: List[Any] = []
         self.violations: List[Dict[str, Any]] = []
@@ -395,13 +396,19 @@ def inject_request(ctx: Ctx, rp, k: int):
     fleet = None
     if not o.get("public", True) and ctx.spec.get("fleets"):
         fleet = sorted(ctx.spec["fleets"])[k % len(ctx.spec["fleets"])]
+    from nrel.hive.model.sim_time import SimTime
+
+    dep = int(rp.s.sim_time)
+    if o.get("backdate"):
+        # a booking system that hands a request over late, under its original departure time (still within its patience)
+        dep -= (k * 13 + 5) % max(1, int(rp.e.config.sim.request_cancel_time_seconds))
     try:
         req = Request.build(
             request_id=f"inj{k}",
             origin=h3.geo_to_h3(src["o"][0], src["o"][1], 15),
             destination=h3.geo_to_h3(src["d"][0], src["d"][1], 15),
             road_network=rp.s.road_network,
-            departure_time=rp.s.sim_time,
+            departure_time=SimTime.build(dep),
             passengers=1,
             allows_pooling=False,
             fleet_id=fleet,
@@ -414,6 +421,7 @@ def inject_request(ctx: Ctx, rp, k: int):
         return rp
     ctx.count("injected_requests")
     ctx.injected_now.append(req.id)
+    ctx.injected_departure[req.id] = dep
     return rp._replace(s=res.unwrap())
 
 
